@@ -1,3 +1,4 @@
+mod eqprobe;
 mod canon;
 mod fpprobe;
 mod mc;
@@ -16,6 +17,7 @@ fn main() {
         Some("store") => store::run(),
         Some("mc") => mc::run(),
         Some("sim") => sim::run(),
+        Some("eqprobe") => eqprobe::run(),
         Some("fpprobe") => fpprobe::run(args.get(2).and_then(|s| s.parse().ok()).unwrap_or(5)),
         Some("draws") => sim::draws(args[2].parse().unwrap(), args[3].parse().unwrap()),
         _ => {
